@@ -6,6 +6,7 @@ import (
 	"go/types"
 	"math"
 	"unicode/utf8"
+	"unsafe"
 
 	"golang.org/x/tools/go/ssa"
 )
@@ -1235,9 +1236,50 @@ func (e *Exec) callBuiltin(caller *frame, fn *ssa.Builtin, args []Value) Value {
 		return recv
 
 	case "String": // unsafe.String(ptr *byte, len)
-		e.unsupported(caller, "unsafe.String")
-	case "StringData", "SliceData", "Slice", "Add":
-		e.unsupported(caller, "unsafe.%s", fn.Name())
+		p := args[0].(Ptr)
+		n := e.concreteInt(caller, args[1], "unsafe.String length")
+		if n == 0 {
+			return Str{}
+		}
+		if p.p == nil || p.symArr != nil {
+			e.unsupported(caller, "unsafe.String on nil/symbolic pointer")
+		}
+		cells := unsafe.Slice(p.p, int(n))
+		ts := make([]*Term, n)
+		for i, cv := range cells {
+			t, ok := cv.(*Term)
+			if !ok {
+				e.unsupported(caller, "unsafe.String over non-byte memory")
+			}
+			ts[i] = t
+		}
+		return strFromTerms(ts)
+	case "SliceData":
+		sl := args[0].(Slice)
+		if cap(sl.v) == 0 {
+			return Ptr{}
+		}
+		return Ptr{p: &sl.v[:1][0], ro: sl.ro}
+	case "Slice": // unsafe.Slice(ptr, len)
+		p := args[0].(Ptr)
+		n := e.concreteInt(caller, args[1], "unsafe.Slice length")
+		if p.p == nil {
+			return Slice{nil: true}
+		}
+		return Slice{v: unsafe.Slice(p.p, int(n)), ro: p.ro}
+	case "StringData":
+		st := args[0].(Str)
+		if st.Len() == 0 {
+			return Ptr{}
+		}
+		ts := st.Terms()
+		cells := make([]Value, len(ts))
+		for i, t := range ts {
+			cells[i] = t
+		}
+		return Ptr{p: &cells[0], ro: true}
+	case "Add":
+		e.unsupported(caller, "unsafe.Add")
 	}
 	e.unsupported(caller, "builtin %s", fn.Name())
 	return nil
